@@ -22,8 +22,15 @@ theorem ends_seq_cls (items : List Item) (neg : Bool) (b : RE) (i : Nat) :
   simp only [ends]
   split <;> simp
 
+theorem ends_rep (a : RE) (mn mx : Nat) (g : Bool) (i : Nat) :
+    ends T s (.rep a mn mx g) i = repEnds (ends T s a) g mx mn i := by simp [ends]
+
 theorem ends_repU (a : RE) (mn : Nat) (g : Bool) (i : Nat) :
     ends T s (.repU a mn g) i = ends T s (.rep a mn (mn + s.size + 1) g) i := by simp [ends]
+
+theorem seq_repU {a c : RE} {mn : Nat} {g : Bool} {i j : Nat} :
+    j ∈ ends T s (.seq (.repU a mn g) c) i ↔ j ∈ ends T s (.seq (.rep a mn (mn + s.size + 1) g) c) i := by
+  simp only [mem_seq, ends_repU]
 
 /-- length of the run of characters satisfying `ok` from position `i` (at most `fuel`) -/
 def runLen (ok : Nat → Bool) : Nat → Nat → Nat
@@ -146,8 +153,7 @@ theorem ends_hashtag (i : Nat) :
   rw [h1, ends_lookBehind]
   by_cases h : AfterSpaceOrStart T s i
   · simp only [h, if_true, List.flatMap_cons, List.flatMap_nil, List.append_nil]
-    rw [ends_seq_cls, ends_seq_eps_right, ends_grp, ends_seq_eps_right, ends_repU]
-    simp only [ends, tag_step]
+    rw [ends_seq_cls, ends_seq_eps_right, ends_grp, ends_seq_eps_right, ends_repU, ends_rep, tag_step]
   · simp [h]
 
 /-- C13 (hashtag): what the engine reports for a match attempt at `i` — nothing unless `i` is at the start or after
@@ -164,8 +170,11 @@ theorem hashtagRE_firstEnd (i : Nat) :
   · by_cases h2 : code s i = 35
     · have hlt : i < s.size := code_lt_size (by omega)
       have hc : clsTest T [.range 35 35] false (code s i) = true := by simp [clsTest, Item.test, h2]
-      simp only [h, hlt, hc, h2, decide_true, Bool.and_self, if_true, true_and]
-      rw [repEnds_greedy_head]
+      have hcond : (decide (i < s.size) && clsTest T [.range 35 35] false (code s i)) = true := by simp [hlt, hc]
+      rw [if_pos h, if_pos hcond, repEnds_greedy_head]
+      by_cases hr : 1 ≤ runLen (tagOk T s) (1 + s.size + 1) (i + 1)
+      · rw [if_pos hr, if_pos ⟨h, h2, hr⟩]
+      · rw [if_neg hr, if_neg (fun hh => hr hh.2.2)]
     · have hc : (decide (i < s.size) && clsTest T [.range 35 35] false (code s i)) = false := by
         have : clsTest T [.range 35 35] false (code s i) = false := by
           simp [clsTest, Item.test]; omega
@@ -185,7 +194,7 @@ theorem hashtagRE_lang (i j : Nat) :
     by_cases hA : AfterSpaceOrStart T s i
     · simp only [hA, if_true, List.mem_singleton] at hk
       subst hk
-      rw [seq_range (by decide), seq_eps_right, mem_grp, ends_repU] at h
+      rw [seq_range (by decide), seq_eps_right, mem_grp, seq_repU] at h
       obtain ⟨h1, h2, h3⟩ := h
       have := (seq_rep_cls (T := T) (s := s) (c := .eps) (g := true) (j := j) tag_pos (1 + s.size + 1) 1 (k + 1)).1 h3
       obtain ⟨n, n1, _, hr, he⟩ := this
@@ -195,12 +204,177 @@ theorem hashtagRE_lang (i j : Nat) :
     · simp [hA] at hk
   · rintro ⟨hA, h35, n, n1, hr, rfl⟩
     refine ⟨i, by simp [hA], ?_⟩
-    rw [seq_range (by decide), seq_eps_right, mem_grp, ends_repU]
+    rw [seq_range (by decide), seq_eps_right, mem_grp, seq_repU]
     refine ⟨by omega, by omega, ?_⟩
     apply (seq_rep_cls (T := T) (s := s) (c := .eps) (g := true) tag_pos (1 + s.size + 1) 1 (i + 1)).2
     refine ⟨n, n1, ?_, fun p hp => clsTest_tag.2 (hr p hp), by simp [mem_eps]⟩
     have := hr (n - 1) (by omega)
     have hlt := code_lt_size (s := s) (i := i + 1 + (n - 1)) (by unfold isTagChar at this; omega)
     omega
+
+end RTV.Re
+
+/-! ### mention -/
+namespace RTV.Re
+variable {T : Tables} {s : Array Nat}
+
+def mentionRE : RE :=
+  .seq (.cls [.range 64 64] false) (.seq (.grp 1 (.seq (.repU (.seq (.cls tagItems false) .eps) 1 true) .eps))
+    (.seq (.look true true (.seq (.cls [.range 46 46] false) (.seq (.cls [.word] false) .eps))) (.seq .wordB .eps)))
+
+theorem gen_mention : RTV.Gen.mentionRegex = mentionRE := by decide
+
+/-- `(?![.]\w)` fails at `j` exactly when a `.` and then a word character follow -/
+def DotWord (T : Tables) (s : Array Nat) (j : Nat) : Prop := code s j = 46 ∧ wordAt T s (j + 1) = true
+
+theorem seq_look_ahead_neg {a b : RE} {i j : Nat} :
+    j ∈ ends T s (.seq (.look true true a) b) i ↔ (∀ k, k ∉ ends T s a i) ∧ j ∈ ends T s b i := by
+  rw [mem_seq]
+  constructor
+  · rintro ⟨k, hk, hb⟩
+    rw [ends] at hk
+    by_cases he : (ends T s a i).isEmpty = true
+    · simp only [he, if_true, List.mem_singleton] at hk
+      subst hk
+      exact ⟨fun k hk => by simp [List.isEmpty_iff.1 he] at hk, hb⟩
+    · simp [he] at hk
+  · rintro ⟨hn, hb⟩
+    refine ⟨i, ?_, hb⟩
+    rw [ends]
+    have : (ends T s a i).isEmpty = true := by
+      cases h : ends T s a i with
+      | nil => rfl
+      | cons x xs => exact absurd (by simp [h]) (hn x)
+    simp [this]
+
+theorem dotword_iff (j : Nat) :
+    (∀ k, k ∉ ends T s (.seq (.cls [.range 46 46] false) (.seq (.cls [.word] false) .eps)) j) ↔ ¬ DotWord T s j := by
+  unfold DotWord wordAt
+  simp only [seq_range (by decide : 0 < 46), seq_cls, mem_eps, clsTest, List.any_cons, List.any_nil, Item.test,
+    Bool.or_false, bne_iff_ne, ne_eq, Bool.not_eq_false]
+  constructor
+  · intro h ⟨h1, h2⟩
+    simp at h2
+    exact h (j + 1 + 1) ⟨by omega, by omega, h2.1, h2.2, rfl⟩
+  · intro h k ⟨h1, h2, h3, h4, _⟩
+    exact h ⟨by omega, by simp [h3, h4]⟩
+
+/-- C13 (mention): the ends from `i` — `@`, a run of tag characters, not followed by `.` + word character, and a word
+boundary after it. -/
+theorem mentionRE_lang (i j : Nat) :
+    j ∈ ends T s mentionRE i ↔
+      code s i = 64 ∧ ∃ n, 1 ≤ n ∧ RunAt isTagChar s (i + 1) n ∧ j = i + 1 + n ∧ ¬ DotWord T s j ∧
+        isWordB T s j = true := by
+  unfold mentionRE
+  rw [seq_range (by decide), seq_grp, seq_seq, seq_repU, seq_rep_cls tag_pos]
+  simp only [seq_eps, seq_look_ahead_neg, dotword_iff, seq_wordB, mem_eps, clsTest_tag]
+  constructor
+  · rintro ⟨h1, h2, n, n1, _, hr, hd, hb, rfl⟩
+    exact ⟨by omega, n, n1, fun p hp => hr p hp, rfl, hd, hb⟩
+  · rintro ⟨h64, n, n1, hr, rfl, hd, hb⟩
+    refine ⟨by omega, by omega, n, n1, ?_, fun p hp => hr p hp, hd, hb, rfl⟩
+    have := hr (n - 1) (by omega)
+    have hlt := code_lt_size (s := s) (i := i + 1 + (n - 1)) (by unfold isTagChar at this; omega)
+    omega
+
+/-- all ends from `i` coincide when tag characters are word characters: a shorter run ends between two word
+characters, which is no word boundary -/
+theorem mentionRE_unique (hw : ∀ c, isTagChar c → T.word c = true) {i j j' : Nat}
+    (h : j ∈ ends T s mentionRE i) (h' : j' ∈ ends T s mentionRE i) : j = j' := by
+  obtain ⟨_, n, n1, hr, rfl, _, hb⟩ := (mentionRE_lang i j).1 h
+  obtain ⟨_, n', n1', hr', rfl, _, hb'⟩ := (mentionRE_lang i j').1 h'
+  have key : ∀ {a b : Nat}, 1 ≤ a → a < b → RunAt isTagChar s (i + 1) b → isWordB T s (i + 1 + a) = true → False := by
+    intro a b a1 hab hrb hba
+    have c1 := hrb (a - 1) (by omega)
+    have c2 := hrb a (by omega)
+    have w1 : wordAt T s (i + 1 + a - 1) = true := by
+      have e : i + 1 + a - 1 = i + 1 + (a - 1) := by omega
+      rw [e]; unfold wordAt
+      simp [hw _ c1, code_lt_size (s := s) (i := i + 1 + (a - 1)) (by unfold isTagChar at c1; omega)]
+    have w2 : wordAt T s (i + 1 + a) = true := by
+      unfold wordAt
+      simp [hw _ c2, code_lt_size (s := s) (i := i + 1 + a) (by unfold isTagChar at c2; omega)]
+    have hpos : i + 1 + a > 0 := by omega
+    unfold isWordB at hba
+    simp [w2, hpos] at hba
+    have e : i + 1 + a - 1 = i + a := by omega
+    rw [e, hba] at w1
+    cases w1
+  rcases Nat.lt_trichotomy n n' with hlt | heq | hgt
+  · exact absurd (key n1 hlt hr' hb) id
+  · rw [heq]
+  · exact absurd (key n1' hgt hr hb') id
+
+end RTV.Re
+
+/-! ### e-mail (`BaseEmail.EmailRegex`, the only pattern the Python extractor uses) -/
+namespace RTV.Re
+variable {T : Tables} {s : Array Nat}
+
+def emailLocalItems : List Item :=
+  [.range 45 45, .range 65 90, .range 97 122, .range 304 304, .range 383 383, .range 8490 8490, .range 48 57,
+   .range 95 95, .range 43 43, .range 46 46]
+def emailDomainItems : List Item :=
+  [.range 45 45, .range 65 90, .range 97 122, .range 304 304, .range 383 383, .range 8490 8490, .digit, .range 46 46]
+def emailTldItems : List Item :=
+  [.range 65 90, .range 97 122, .range 304 304, .range 383 383, .range 8490 8490, .range 46 46]
+
+def emailRE : RE :=
+  .seq (.grp 1 (.seq (.grp 2 (.seq (.repU (.seq (.cls emailLocalItems false) .eps) 1 true) .eps))
+    (.seq (.cls [.range 64 64] false) (.seq (.grp 3 (.seq (.repU (.seq (.cls emailDomainItems false) .eps) 1 true) .eps))
+    (.seq (.cls [.range 46 46] false) (.seq (.grp 4 (.seq (.rep (.seq (.cls emailTldItems false) .eps) 2 6 true) .eps))
+    .eps)))))) .eps
+
+theorem gen_email : RTV.Gen.emailRegex = emailRE := by decide
+
+/-- the three character classes (letters in either case incl. `regex`'s İ ſ K variants; the domain class uses `\d`) -/
+def EmailLocal (T : Tables) (c : Nat) : Prop := clsTest T emailLocalItems false c = true
+def EmailDomain (T : Tables) (c : Nat) : Prop := clsTest T emailDomainItems false c = true
+def EmailTld (T : Tables) (c : Nat) : Prop := clsTest T emailTldItems false c = true
+
+theorem emailLocal_pos : ∀ x, clsTest T emailLocalItems false x = true → 0 < x := by
+  intro x h; simp [clsTest, Item.test, emailLocalItems] at h; omega
+theorem emailTld_pos : ∀ x, clsTest T emailTldItems false x = true → 0 < x := by
+  intro x h; simp [clsTest, Item.test, emailTldItems] at h; omega
+theorem emailDomain_pos (hd0 : T.digit 0 = false) : ∀ x, clsTest T emailDomainItems false x = true → 0 < x := by
+  intro x h
+  by_cases hx : x = 0
+  · subst hx; simp [clsTest, Item.test, emailDomainItems, hd0] at h
+  · omega
+
+/-- unbounded class repeat followed by `c` -/
+theorem seq_repU_cls {items : List Item} {c : RE} {g : Bool} {mn i j : Nat}
+    (hpos : ∀ x, clsTest T items false x = true → 0 < x) :
+    j ∈ ends T s (.seq (.repU (.seq (.cls items false) .eps) mn g) c) i ↔
+      ∃ n, mn ≤ n ∧ RunAt (fun x => clsTest T items false x = true) s i n ∧ j ∈ ends T s c (i + n) := by
+  rw [seq_repU, seq_rep_cls hpos]
+  constructor
+  · rintro ⟨n, h1, _, h3, h4⟩; exact ⟨n, h1, h3, h4⟩
+  · rintro ⟨n, h1, h3, h4⟩
+    refine ⟨n, h1, ?_, h3, h4⟩
+    cases n with
+    | zero => omega
+    | succ m =>
+      have := hpos _ (h3 m (by omega))
+      have := code_lt_size (s := s) (i := i + m) this
+      omega
+
+/-- C13 (e-mail): a match from `i` to `j` is exactly `local@domain.tld` — a non-empty run of local characters, `@`,
+a non-empty run of domain characters, `.`, 2–6 tld characters (`.` itself is a domain and a tld character, so the
+split need not be unique; which end a greedy engine reports first is covered by the correspondence). -/
+theorem emailRE_lang (hd0 : T.digit 0 = false) (i j : Nat) :
+    j ∈ ends T s emailRE i ↔
+      ∃ a b n, 1 ≤ a ∧ RunAt (EmailLocal T) s i a ∧ code s (i + a) = 64 ∧
+        1 ≤ b ∧ RunAt (EmailDomain T) s (i + a + 1) b ∧ code s (i + a + 1 + b) = 46 ∧
+        2 ≤ n ∧ n ≤ 6 ∧ RunAt (EmailTld T) s (i + a + 1 + b + 1) n ∧ j = i + a + 1 + b + 1 + n := by
+  unfold emailRE
+  simp only [seq_eps_right, mem_grp, seq_grp, seq_seq, seq_repU_cls emailLocal_pos,
+    seq_repU_cls (emailDomain_pos hd0), seq_rep_cls emailTld_pos, seq_eps, seq_range (by decide : 0 < 64),
+    seq_range (by decide : 0 < 46), mem_eps]
+  constructor
+  · rintro ⟨a, a1, ha, h1, h2, b, b1, hb, h3, h4, n, n2, n6, hn, rfl⟩
+    exact ⟨a, b, n, a1, ha, by omega, b1, hb, by omega, n2, n6, hn, rfl⟩
+  · rintro ⟨a, b, n, a1, ha, h64, b1, hb, h46, n2, n6, hn, rfl⟩
+    exact ⟨a, a1, ha, by omega, by omega, b, b1, hb, by omega, by omega, n, n2, n6, hn, rfl⟩
 
 end RTV.Re
